@@ -1,6 +1,7 @@
 SPECIFICATION Spec
 CONSTANTS
   NFaults = 1
+  MaxWrap = 24
   Emitting = FALSE
 INVARIANT DecTotal
 INVARIANT UnalignedIsBad
